@@ -8,7 +8,7 @@ d=/tmp/mr_$prop.$$
 rm -rf $d; mkdir -p $d && git -C /repo archive HEAD | tar -x -C $d || exit 2
 (cd $d && git init -q . && git apply "$patch") || { echo "patch does not apply"; rm -rf $d; exit 2; }
 cd /verif
-VERIF_REPO=$d VERIF_EVIDENCE_DIR=/tmp/ev_mut timeout 3000 ./bin/vcheck run --property "$prop" --tier "$tier" > /tmp/try_$prop.out 2>&1
+VERIF_REPO=$d VERIF_EVIDENCE_DIR=/tmp/ev_mut timeout 3000 ${VCHECK:-./bin/vcheck} run --property "$prop" --tier "$tier" > /tmp/try_$prop.out 2>&1
 rc=$?
 rm -rf $d
 grep -c "^VIOLATION" /tmp/try_$prop.out
